@@ -43,11 +43,18 @@ SCENARIOS_CLIENT = ["c-open", "c-hclocal", "c-resp-started", "c-reserved", "c-pa
                     "c-midblock-resp", "c-midblock-push", "c-reserved+refused", "c-reserved+cancel",
                     # a second request stream (3) stays open next to the one that is reset: frames the peer sends on IT (a
                     # promise, its response) must not change how racing frames on the reset stream are treated
-                    "c-open-with-other"]
+                    "c-open-with-other",
+                    # the library may remember ONE closed stream only (MAX_CLOSED_STREAMS = 1), a later request (3) has come
+                    # and gone before the long-lived stream 1 is reset: the stream reset last is the one to remember
+                    "c-open-cap1-after-other-finished"]
 SCENARIOS_SERVER = ["s-open", "s-hcremote", "s-hclocal", "s-reserved", "s-midblock-trailers",
                     # the newest stream of the peer turned away with REFUSED_STREAM / CANCEL instead of the default code
                     "s-open+refused", "s-open+cancel", "s-hcremote+refused"]
 CODES = {"refused": 7, "cancel": 8}
+
+
+class Cap1Connection(H.h2.connection.H2Connection):
+    MAX_CLOSED_STREAMS = 1
 
 
 class Spec:
@@ -70,6 +77,10 @@ class Spec:
         st = S()
         client = self.client
         st.h = H.Solo(client)
+        if scen.startswith("c-open-cap1"):
+            st.h = H.Solo(True, handshake=False)
+            st.h.conn = Cap1Connection(config=st.h.conn.config)
+            H.handshake_client(st.h.conn)
         h = st.h
         st.penc = hpack.Encoder()
         st.nfresh = 0
@@ -96,6 +107,15 @@ class Spec:
             h.api("send_headers", 1, H.ni(H.REQ_POST), end_stream=es)
             st.phase[1] = "none"
             st.other = None
+            if scen == "c-open-cap1-after-other-finished":
+                for o in (h.api("send_headers", 3, H.ni(H.REQ), end_stream=True),
+                          h.rx([wire.headers(3, self.penc(st, H.RESP + [self.fresh(st)]), es=True)], ("headers", 3, True, False))):
+                    assert o.kind == "ok", o.brief()
+                h.cleanup()
+                st.next_odd = 5
+                st.cap1 = True          # nothing else may close in this scenario: with room for one, the next one evicts stream 1
+                st.probed = 2
+                scen = "c-open"
             if scen == "c-open-with-other":
                 h.api("send_headers", 3, H.ni(H.REQ_POST))
                 st.other = 3
@@ -125,7 +145,8 @@ class Spec:
                 h.api("reset_stream", 1)
                 st.dead_ids.add(1)
                 st.race = [1]
-                st.can_push.add(1)
+                if not getattr(st, "cap1", False):
+                    st.can_push.add(1)
                 if scen == "c-parent-reset":
                     st.race.append(2)    # the earlier promise is still alive and racing frames may come on it too
         else:
